@@ -154,6 +154,44 @@ def extract(repo, config, target_dir=None, force=False, quiet=True):
     return out, info
 
 
+def extract_dep(repo, crate="levenberg_marquardt", pkg="levenberg-marquardt", quiet=True):
+    """facts of a *dependency* crate as pinned by the repo's Cargo.lock (RUSTC_WRAPPER wraps every
+    crate; the driver dumps only the one named in VP_CRATE). Cached by Cargo.lock + driver hash."""
+    t0 = time.time()
+    drv = ensure_driver()
+    h = hashlib.sha256()
+    h.update(open(os.path.join(repo, "Cargo.lock"), "rb").read())
+    h.update(open(os.path.join(repo, "Cargo.toml"), "rb").read())
+    h.update(driver_sources_hash().encode())
+    key = h.hexdigest()[:24]
+    out = os.path.join(CACHE, "facts", "dep-%s-%s.json" % (crate, key))
+    os.makedirs(os.path.dirname(out), exist_ok=True)
+    info = {"crate": crate, "key": key, "cached": False}
+    tdir = os.path.join(CACHE, "target-dep")
+    os.makedirs(tdir, exist_ok=True)
+    with open(os.path.join(CACHE, "extract-dep.lock"), "w") as lk:
+        fcntl.flock(lk, fcntl.LOCK_EX)
+        if os.path.exists(out):
+            info["cached"] = True
+        else:
+            for fp in glob.glob(os.path.join(tdir, "debug", ".fingerprint", pkg + "-*")):
+                shutil.rmtree(fp, ignore_errors=True)
+            tmp_out = out + ".new"
+            if os.path.exists(tmp_out):
+                os.remove(tmp_out)
+            e = env_offline()
+            e.update({"VP_CONFIG": "dep", "VP_CRATE": crate, "VP_FACTS_OUT": tmp_out, "LD_LIBRARY_PATH": sysroot() + "/lib",
+                      "RUSTFLAGS": "-Zmir-opt-level=0 -Awarnings", "RUSTC_WRAPPER": drv, "CARGO_TARGET_DIR": tdir, "CARGO_INCREMENTAL": "0"})
+            r = subprocess.run(["cargo", "+nightly", "check", "--offline", "--locked", "--lib", "-p", "varpro"], cwd=repo, env=e,
+                               stdout=subprocess.PIPE, stderr=subprocess.STDOUT, text=True)
+            if r.returncode != 0 or not os.path.exists(tmp_out):
+                info["error"] = r.stdout[-3000:]
+                return None, info
+            os.replace(tmp_out, out)
+    info["wall_s"] = round(time.time() - t0, 2)
+    return out, info
+
+
 def prune_cache(keep=40):
     d = os.path.join(CACHE, "facts")
     fs = sorted(glob.glob(os.path.join(d, "*.json")), key=os.path.getmtime)
